@@ -2,6 +2,7 @@ package main
 
 import (
 	"go/ast"
+	"path/filepath"
 	"go/token"
 	"sort"
 	"strconv"
@@ -91,6 +92,187 @@ func c07UsesIdent(fd *ast.FuncDecl, name string) bool {
 	return found
 }
 
+// ---- tolerant reading of a function: same-package callees are followed (depth <= 2), file arguments are classified
+// by what they denote (which file-name constant they are built from), not by the names of local variables
+
+// c07ParsePkg parses every non-test Go file of a package directory (build-tagged verif exports excluded)
+func c07ParsePkg(rel string) []*ast.File {
+	var fs []*ast.File
+	names, _ := filepath.Glob(filepath.Join(repo, rel, "*.go"))
+	sort.Strings(names)
+	for _, n := range names {
+		b := filepath.Base(n)
+		if strings.HasSuffix(b, "_test.go") || strings.Contains(b, "verif") {
+			continue
+		}
+		if f := parseFile(filepath.Join(rel, b)); f != nil {
+			fs = append(fs, f)
+		}
+	}
+	return fs
+}
+
+func c07PkgFuncs(files []*ast.File) map[string][]*ast.FuncDecl {
+	m := map[string][]*ast.FuncDecl{}
+	for _, f := range files {
+		if f == nil {
+			continue
+		}
+		for _, d := range f.Decls {
+			if fd, ok := d.(*ast.FuncDecl); ok && fd.Body != nil {
+				m[fd.Name.Name] = append(m[fd.Name.Name], fd)
+			}
+		}
+	}
+	return m
+}
+
+// c07Callee resolves a call to a function or method of the same package (by name; a selector call is taken for a method
+// call when its X is a plain identifier that is not an imported package name used by the FS calls we look for)
+func c07Callee(funcs map[string][]*ast.FuncDecl, ce *ast.CallExpr) *ast.FuncDecl {
+	name := ""
+	switch f := ce.Fun.(type) {
+	case *ast.Ident:
+		name = f.Name
+	case *ast.SelectorExpr:
+		if id, ok := f.X.(*ast.Ident); ok {
+			switch id.Name {
+			case "os", "ioutil", "path", "json", "errors", "fmt", "filepath", "fileutil", "strings", "sort":
+				return nil
+			}
+		}
+		name = f.Sel.Name
+	}
+	if fds := funcs[name]; len(fds) == 1 {
+		return fds[0]
+	}
+	return nil
+}
+
+// c07Reaches: does fd (callees followed to the given depth) contain a call whose selector ends with suffix
+func c07Reaches(funcs map[string][]*ast.FuncDecl, fd *ast.FuncDecl, suffix string, depth int) bool {
+	if fd == nil || fd.Body == nil {
+		return false
+	}
+	found := false
+	ast.Inspect(fd.Body, func(n ast.Node) bool {
+		ce, ok := n.(*ast.CallExpr)
+		if !ok || found {
+			return !found
+		}
+		sel := c07Sel(ce.Fun)
+		if sel == suffix || strings.HasSuffix(sel, "."+suffix) {
+			found = true
+			return false
+		}
+		if depth > 0 {
+			if cal := c07Callee(funcs, ce); cal != nil && cal != fd && c07Reaches(funcs, cal, suffix, depth-1) {
+				found = true
+			}
+		}
+		return !found
+	})
+	return found
+}
+
+// c07Role classifies a file-name expression: "dat" (built from datConst), "bak" (from bakConst), "tmp" (a dat name plus
+// a string literal), or "?"; identifiers are looked up in env
+func c07Role(e ast.Expr, env map[string]string, datConst, bakConst string) string {
+	switch x := e.(type) {
+	case *ast.Ident:
+		if x.Name == datConst {
+			return "dat"
+		}
+		if bakConst != "" && x.Name == bakConst {
+			return "bak"
+		}
+		if r, ok := env[x.Name]; ok {
+			return r
+		}
+	case *ast.BinaryExpr:
+		if x.Op == token.ADD {
+			if _, ok := x.Y.(*ast.BasicLit); ok && c07Role(x.X, env, datConst, bakConst) == "dat" {
+				return "tmp"
+			}
+		}
+	case *ast.CallExpr: // path.Join(dir, <const>)
+		for _, a := range x.Args {
+			if r := c07Role(a, env, datConst, bakConst); r != "?" {
+				return r
+			}
+		}
+	case *ast.ParenExpr:
+		return c07Role(x.X, env, datConst, bakConst)
+	}
+	return "?"
+}
+
+// c07FsCalls linearises the os.* / ioutil.* calls of fd in source order as "<func>(<role>,<role>)", following
+// same-package callees (parameters bound to the roles of the arguments)
+func c07FsCalls(funcs map[string][]*ast.FuncDecl, fd *ast.FuncDecl, env map[string]string, datConst, bakConst string, depth int) []string {
+	var res []string
+	if fd == nil || fd.Body == nil {
+		return res
+	}
+	ast.Inspect(fd.Body, func(n ast.Node) bool {
+		switch x := n.(type) {
+		case *ast.AssignStmt:
+			for i, lh := range x.Lhs {
+				if id, ok := lh.(*ast.Ident); ok && i < len(x.Rhs) && len(x.Lhs) == len(x.Rhs) {
+					if r := c07Role(x.Rhs[i], env, datConst, bakConst); r != "?" {
+						env[id.Name] = r
+					}
+				}
+			}
+		case *ast.ValueSpec:
+			for i, id := range x.Names {
+				if i < len(x.Values) {
+					if r := c07Role(x.Values[i], env, datConst, bakConst); r != "?" {
+						env[id.Name] = r
+					}
+				}
+			}
+		case *ast.CallExpr:
+			sel := c07Sel(x.Fun)
+			switch sel {
+			case "os.Stat", "os.Rename", "os.Link", "os.Remove", "ioutil.WriteFile", "os.WriteFile", "os.Create", "os.OpenFile", "os.Truncate":
+				var roles []string
+				for i, a := range x.Args {
+					if i < 2 {
+						roles = append(roles, c07Role(a, env, datConst, bakConst))
+					}
+				}
+				if (sel == "ioutil.WriteFile" || sel == "os.WriteFile" || sel == "os.Stat" || sel == "os.Remove") && len(roles) > 1 {
+					roles = roles[:1]
+				}
+				res = append(res, strings.TrimPrefix(strings.TrimPrefix(sel, "ioutil."), "os.")+"("+strings.Join(roles, ",")+")")
+			default:
+				if depth > 0 {
+					if cal := c07Callee(funcs, x); cal != nil && cal != fd {
+						sub := map[string]string{}
+						i := 0
+						if cal.Type.Params != nil {
+							for _, fld := range cal.Type.Params.List {
+								for _, nm := range fld.Names {
+									if i < len(x.Args) {
+										if r := c07Role(x.Args[i], env, datConst, bakConst); r != "?" {
+											sub[nm.Name] = r
+										}
+									}
+									i++
+								}
+							}
+						}
+						res = append(res, c07FsCalls(funcs, cal, sub, datConst, bakConst, depth-1)...)
+					}
+				}
+			}
+		}
+		return true
+	})
+	return res
+}
+
 func init() {
 	generators["C07"] = func() {
 		l := newLean("C07", "Facts about persisted state: pkg/tindex/inmem.go (saveStateUnsafe, loadState), pkg/tmindex/cindex.go\n(snapshot, lightFill), pkg/pipe/persister.go, service.go, ppipe.go.")
@@ -99,6 +281,7 @@ func init() {
 		pf := parseFile("pkg/pipe/persister.go")
 		sf := parseFile("pkg/pipe/service.go")
 		ppf := parseFile("pkg/pipe/ppipe.go")
+		pfuncs := c07PkgFuncs(c07ParsePkg("pkg/pipe"))
 
 		get := func(f *ast.File, n, where string) string {
 			v, ok := c07Const(f, n)
@@ -160,62 +343,30 @@ func init() {
 		l.p("  | other")
 		l.p("deriving DecidableEq, Repr")
 		var calls []string
+		tfuncs := c07PkgFuncs(c07ParsePkg("pkg/tindex"))
 		if fd := funcDecl(tf, "inmemService", "saveStateUnsafe"); fd == nil {
 			problem("tindex.inmemService.saveStateUnsafe not found")
 		} else {
-			ast.Inspect(fd.Body, func(n ast.Node) bool {
-				ce, ok := n.(*ast.CallExpr)
-				if !ok {
-					return true
-				}
-				arg := func(i int) string {
-					if i < len(ce.Args) {
-						return c07Sel(ce.Args[i])
-					}
-					return ""
-				}
-				switch c07Sel(ce.Fun) {
-				case "os.Stat":
-					if arg(0) == "fn" {
-						calls = append(calls, ".statDat")
-					} else {
-						calls = append(calls, ".other")
-					}
-				case "os.Rename":
-					switch {
-					case arg(0) == "fn" && arg(1) == "bFn":
-						calls = append(calls, ".renameDatToBak")
-					case arg(0) == "tmpFn" && arg(1) == "fn":
-						calls = append(calls, ".renameTmpToDat")
-					default:
-						calls = append(calls, ".other")
-					}
-				case "os.Link":
-					if arg(0) == "fn" && arg(1) == "bFn" {
-						calls = append(calls, ".linkDatToBak")
-					} else {
-						calls = append(calls, ".other")
-					}
-				case "ioutil.WriteFile", "os.WriteFile":
-					switch arg(0) {
-					case "fn":
-						calls = append(calls, ".writeDat")
-					case "tmpFn":
-						calls = append(calls, ".writeTmp")
-					default:
-						calls = append(calls, ".other")
-					}
-				case "os.Remove":
-					if arg(0) == "bFn" {
-						calls = append(calls, ".removeBak")
-					} else {
-						calls = append(calls, ".other")
-					}
-				case "os.Create", "os.OpenFile":
+			for _, c := range c07FsCalls(tfuncs, fd, map[string]string{}, "cIdxFileName", "cIdxBackupFileName", 2) {
+				switch c {
+				case "Stat(dat)":
+					calls = append(calls, ".statDat")
+				case "Rename(dat,bak)":
+					calls = append(calls, ".renameDatToBak")
+				case "Rename(tmp,dat)":
+					calls = append(calls, ".renameTmpToDat")
+				case "Link(dat,bak)":
+					calls = append(calls, ".linkDatToBak")
+				case "WriteFile(dat)":
+					calls = append(calls, ".writeDat")
+				case "WriteFile(tmp)":
+					calls = append(calls, ".writeTmp")
+				case "Remove(bak)":
+					calls = append(calls, ".removeBak")
+				default:
 					calls = append(calls, ".other")
 				}
-				return true
-			})
+			}
 		}
 		l.p("def saveStateCalls : List FsCall := [%s]", strings.Join(calls, ", "))
 		l.p("/-- `loadState` mentions the backup file name (falls back to tindex.bak) -/")
@@ -245,7 +396,7 @@ func init() {
 			}
 			return "[" + strings.Join(r, ", ") + "]"
 		}
-		if !has(sp2, "Shutdown") {
+		if !c07Reaches(pfuncs, funcDecl(sf, "Service", "Shutdown"), "savePipes", 2) {
 			problem("pipe.Service.Shutdown no longer calls savePipes")
 		}
 		// persister.savePipes: WriteFile(fn) in place, or WriteFile(tmpFn) + Rename(tmpFn, fn)
@@ -253,27 +404,19 @@ func init() {
 		if fd := funcDecl(pf, "persister", "savePipes"); fd == nil {
 			problem("pipe.persister.savePipes not found")
 		} else {
-			ast.Inspect(fd.Body, func(n ast.Node) bool {
-				if ce, ok := n.(*ast.CallExpr); ok {
-					a0, a1 := "", ""
-					if len(ce.Args) > 0 {
-						a0 = c07Sel(ce.Args[0])
-					}
-					if len(ce.Args) > 1 {
-						a1 = c07Sel(ce.Args[1])
-					}
-					switch c07Sel(ce.Fun) {
-					case "ioutil.WriteFile", "os.WriteFile":
-						inPlace = inPlace || a0 == "fn"
-						viaTmp = viaTmp || a0 == "tmpFn"
-					case "os.Rename":
-						renames = renames || (a0 == "tmpFn" && a1 == "fn")
-					}
+			seq := c07FsCalls(pfuncs, fd, map[string]string{}, "cPipesFileName", "", 2)
+			for _, c := range seq {
+				switch c {
+				case "WriteFile(dat)":
+					inPlace = true
+				case "WriteFile(tmp)":
+					viaTmp = true
+				case "Rename(tmp,dat)":
+					renames = viaTmp // the rename follows the write
 				}
-				return true
-			})
+			}
 			if !inPlace && !(viaTmp && renames) {
-				problem("persister.savePipes neither rewrites the file in place nor writes a temp file and renames it")
+				problem("persister.savePipes neither rewrites the file in place nor writes a temp file and renames it (calls: %v)", seq)
 			}
 		}
 		l.p("")
@@ -281,8 +424,8 @@ func init() {
 		l.p("def savePipesViaTmpRename : Bool := %s", leanBool(viaTmp && renames && !inPlace))
 		l.p("/-- functions of pkg/pipe that call `savePipes` -/")
 		l.p("def savePipesCallers : List String := %s", q(sp2))
-		l.p("def pipeDefsSavedOnCreate : Bool := %s", leanBool(has(sp2, "CreatePipe")))
-		l.p("def pipeDefsSavedOnDelete : Bool := %s", leanBool(has(sp2, "DeletePipe")))
+		l.p("def pipeDefsSavedOnCreate : Bool := %s", leanBool(c07Reaches(pfuncs, funcDecl(sf, "Service", "CreatePipe"), "savePipes", 2)))
+		l.p("def pipeDefsSavedOnDelete : Bool := %s", leanBool(c07Reaches(pfuncs, funcDecl(sf, "Service", "DeletePipe"), "savePipes", 2)))
 		cs := c07Callers([]*ast.File{cf}, "saveDataToFile")
 		if !has(cs, "close") {
 			problem("cindex.close no longer calls saveDataToFile")
@@ -325,17 +468,17 @@ func init() {
 			})
 		}
 		// partition.Service.Shutdown: does it sync the journals?
-		syncs := false
-		if fd := funcDecl(parseFile("pkg/partition/partition.go"), "Service", "Shutdown"); fd == nil {
-			problem("partition.Service.Shutdown not found")
-		} else {
-			ast.Inspect(fd.Body, func(n ast.Node) bool {
-				if ce, ok := n.(*ast.CallExpr); ok && strings.HasSuffix(c07Sel(ce.Fun), ".Sync") {
-					syncs = true
-				}
-				return true
-			})
+		parFiles := c07ParsePkg("pkg/partition")
+		var shut *ast.FuncDecl
+		for _, f := range parFiles {
+			if fd := funcDecl(f, "Service", "Shutdown"); fd != nil {
+				shut = fd
+			}
 		}
+		if shut == nil {
+			problem("partition.Service.Shutdown not found")
+		}
+		syncs := c07Reaches(c07PkgFuncs(parFiles), shut, "Sync", 2)
 		l.p("/-- `partition.Service.Shutdown` calls `Sync()` on the journals (the library's journal controller has no Shutdown) -/")
 		l.p("def partitionShutdownSyncsJournals : Bool := %s", leanBool(syncs))
 		// cindex.onWrite: (1) the branch for a source the index has no entry for (`!ok`, an if or a switch case) sets
@@ -387,17 +530,17 @@ func init() {
 			})
 		}
 		// cindex.syncChunks: what is known about a chunk that holds more records than the hull accounts for is dropped
-		dropsStale := false
-		if fd := funcDecl(cf, "cindex", "syncChunks"); fd == nil {
+		tmFuncs := c07PkgFuncs(c07ParsePkg("pkg/tmindex"))
+		if funcDecl(cf, "cindex", "syncChunks") == nil {
 			problem("cindex.syncChunks not found")
-		} else {
-			ast.Inspect(fd.Body, func(n ast.Node) bool {
-				if ce, ok := n.(*ast.CallExpr); ok && strings.HasSuffix(c07Sel(ce.Fun), ".dropStale") {
-					dropsStale = true
-				}
-				return true
-			})
 		}
+		dropsStale := c07Reaches(tmFuncs, funcDecl(cf, "cindex", "syncChunks"), "dropStale", 2)
+		if funcDecl(cf, "cindex", "init") == nil {
+			problem("cindex.init not found")
+		}
+		l.p("/-- `cindex.init` checks every loaded root (`ckiCtrlr.isRoot`: the block can be read and is not empty) and forgets the")
+		l.p("ones that fail, so that the chunk takes the \"no index → rebuild\" path (repair of finding F47) -/")
+		l.p("def cindexInitValidatesRoots : Bool := %s", leanBool(c07Reaches(tmFuncs, funcDecl(cf, "cindex", "init"), "isRoot", 2)))
 		l.p("/-- `cindex.syncChunks` drops the entry of a chunk that holds more records than its hull accounts for (`chkInfo.Recs`,")
 		l.p("persisted in the snapshot): the chunk is then handled like one the index does not know (repair of finding F06) -/")
 		l.p("def syncChunksDropsStaleEntries : Bool := %s", leanBool(dropsStale))
